@@ -5,9 +5,12 @@
 package script
 
 import (
+	"context"
 	"errors"
 	"fmt"
+	"io"
 	"math"
+	"net"
 	"time"
 
 	"github.com/jackc/pgx/v5/pgtype"
@@ -328,6 +331,33 @@ type Layer struct {
 type ErrSpec struct {
 	Base   string  `json:"base"`
 	Layers []Layer `json:"layers,omitempty"`
+	// Wraps: the base error wraps a well-known sentinel ("eof", "unexpected-eof", "closed",
+	// "canceled", "deadline"): an error a handler returns is an error to report, whatever it wraps.
+	Wraps string `json:"wraps,omitempty"`
+}
+
+func sentinel(k string) error {
+	switch k {
+	case "eof":
+		return io.EOF
+	case "unexpected-eof":
+		return io.ErrUnexpectedEOF
+	case "closed":
+		return net.ErrClosed
+	case "canceled":
+		return context.Canceled
+	case "deadline":
+		return context.DeadlineExceeded
+	}
+	return nil
+}
+
+// BaseText is the message text of the undecorated error.
+func (e *ErrSpec) BaseText() string {
+	if s := sentinel(e.Wraps); s != nil {
+		return e.Base + ": " + s.Error()
+	}
+	return e.Base
 }
 
 func (e *ErrSpec) Build() error {
@@ -343,6 +373,9 @@ func (e *ErrSpec) Build() error {
 // when a program decorates a sentinel error).
 func (e *ErrSpec) BuildAll() []error {
 	err := errors.New(e.Base)
+	if s := sentinel(e.Wraps); s != nil {
+		err = fmt.Errorf("%s: %w", e.Base, s)
+	}
 	all := []error{err}
 	for _, l := range e.Layers {
 		switch l.K {
@@ -380,7 +413,7 @@ type ExpErr struct {
 }
 
 func (e *ErrSpec) Expect() ExpErr {
-	x := ExpErr{Severity: "ERROR", Code: string(codes.Uncategorized), Message: e.Base}
+	x := ExpErr{Severity: "ERROR", Code: string(codes.Uncategorized), Message: e.BaseText()}
 	for _, l := range e.Layers { // later layers are further out: they overwrite
 		l := l
 		switch l.K {
